@@ -25,7 +25,13 @@ RULE = ("operations: write (every length class 0..520 step 4, 2^10..2^20, unalig
         "connection with a short read timeout (c08.dl): reads, idle time longer than the timeout with and without a "
         "read pending, then writes of several lengths, writes still blocked past the timeout behind a late-draining "
         "peer, and the mirror image (writes, idle/blocked writes, then reads) — each side must receive exactly the "
-        "frames the other wrote; "
+        "frames the other wrote; c08.read is judged by the format's own reader (the mode is recognised from 0xef / 0xee 0xee 0xee 0xee "
+        "and from nothing else; whole frames are the messages; a cut frame ends the stream) on streams that share a prefix with an "
+        "announcement without being one (0xee then other bytes, a cut announcement, 0xdd.., other first bytes); c08.seq = operations "
+        "of ONE process one after another — such streams detected before, between and after NEW connections of both modes writing "
+        "their announcement and frames (mode.New on a recording connection and on the repository's TCP connection over loopback) "
+        "and well-formed streams being detected and read: every step judged as the single operation it is; c08.tcp's peer checks "
+        "the announcement the client's transport wrote; "
         "distinct = distinct operation lines; each is compared with the Lean model and judged by the "
         "independent spec framer")
 
@@ -34,6 +40,7 @@ def run(ctx):
     ctx.assumptions += [
         "tcpConn.Read is an exact-count read (go-dry CancelableReader + io.ReadFull): observed over loopback, not proved",
         "the kernel's actual TCP segmentation is not controlled; segmentation is controlled on the in-memory exact-count reader",
+        "c08.seq: the model's operations are functions of their input alone, so the driver answers each step as the single operation it is",
         "c08.dl: timing is not modelled (the driver answers what the model says about the two streams of frames); whether the "
         "slow-writer variants really block depends on the machine's socket buffer limits (counted in the distribution's extra)",
     ]
